@@ -228,7 +228,10 @@ CLAIMS.update({
     text="Theorems (Props/C12): in the model, lookups, reads, extractions, removals, listing and index insertion have no "
          "flavour parameter at all; for the writers (the only flavour-dependent programs) both flavours return the same "
          "integrity whenever both answer ok (under any faults), leave the same record in the bucket and keep the store "
-         "valid at every kill point. Tie: every program executed as all-sync, all-async, sync-then-async and async-then-sync "
+         "valid at every kill point; TOTAL CORRECTNESS (flavour_assignment_irrelevant, via cache_refines_map): any program of "
+         "keyed writes of every shape, reads, index and by-address operations, of any length, run from a healthy cache with "
+         "ANY assignment of flavours to its steps (all sync, all async, mixed in any pattern) returns at every step what the "
+         "program as written returns and leaves the same abstract cache (index map + content store). Tie: every program executed as all-sync, all-async, sync-then-async and async-then-sync "
          "on the async-std AND the tokio binary (8 executions), canonical result streams equal step by step.",
     note=TB + "the three real builds are related to the one model by three correspondences; that is where the claim gets "
          "its content. Error KINDS under injected faults may differ between flavours (async close reports the later "
